@@ -925,15 +925,15 @@ func vRunWriteHistory(c *vCase, prop string) {
 				case k < 3 && !w.model.active:
 					ok = startReq()
 				case k < 3:
-					ok = w.label(vPick(r, "A", "calibration", "state with spaces", "Z9"))
+					ok = w.label(vPick(r, "A", "calibration", "state with spaces", "Z9", "shutter 50% open", "100%"))
 				case k < 5:
 					ok = w.request("STOP", false, false, false)
 				case k < 6:
 					ok = w.request("PAUSE", false, false, false)
 				case k < 8:
-					ok = w.request(vPick(r, "UNPAUSE", "UNPAUSE resumed"), false, false, false)
+					ok = w.request(vPick(r, "UNPAUSE", "UNPAUSE resumed", "UNPAUSE 10% duty"), false, false, false)
 				default:
-					ok = w.label(vPick(r, "A", "B", "noise", "pulses 2"))
+					ok = w.label(vPick(r, "A", "B", "noise", "pulses 2", "%d %s %v", "gain +3%"))
 				}
 			}
 		} else {
